@@ -1,0 +1,316 @@
+//go:build verif
+
+package plugin
+
+// Contracts for the plugin step provider, read by the govc verifier (build tag
+// verif). This file contains no executable code.
+//
+// ---- field discipline (C17) ----
+//@ fields runningStep guarded_by(lock): currentStage state deployInputAvailable enabledInputAvailable runInputAvailable cancelled useLocalDeployer container atpClient signalToStep
+//@ fields runningStep owned_by(run): currentStage atpClient
+//@ fields runningStep immutable: lock ctx cancel deployInput runInput enabledInput executionChannel signalFromStep stageChangeHandler stepSchema deployerRegistry logger deploymentType source pluginStepID localDeployer runID
+//@ fields runningStep atomic(set-only): closed
+//
+// ---- what every method may rely on (established by Start, fields are immutable) ----
+//@ pred wfstep(r *runningStep) = r != nil && r.lock != nil && r.stageChangeHandler != nil && r.logger != nil && \
+//@    r.ctx != nil && r.cancel != nil && cancels(r.cancel, r.ctx) && r.stepSchema != nil && r.deployerRegistry != nil && r.localDeployer != nil && \
+//@    r.deployInput != nil && r.runInput != nil && r.enabledInput != nil && r.executionChannel != nil && r.signalFromStep != nil && \
+//@    chcap(r.deployInput) == 1 && chcap(r.runInput) == 1 && chcap(r.enabledInput) == 1 && chcap(r.executionChannel) == 2 && \
+//@    r.deployInput != r.runInput && r.deployInput != r.enabledInput && r.runInput != r.enabledInput && \
+//@    r.executionChannel != r.deployInput && r.executionChannel != r.runInput && r.executionChannel != r.enabledInput
+//
+// Definition of the ghost function `declares` for plugin steps: the outputs listed by pluginDeclares
+// (agreement with Lifecycle() is a separate obligation of that function).
+//@ axiom forall r *runningStep, st string, o string :: declares(step.RunningStep(r), st, o) == pluginDeclares(st, o)
+//
+// Outputs the plugin provider's lifecycle declares per stage (the `outputs` stage carries the plugin's own outputs).
+//@ pred pluginDeclares(stage string, out string) = (stage == "enabling" && out == "resolved") || (stage == "starting" && out == "started") || \
+//@    (stage == "disabled" && out == "output") || (stage == "closed" && out == "result") || (stage == "deploy_failed" && out == "error") || \
+//@    (stage == "crashed" && out == "error") || stage == "outputs"
+//
+// Position of a main-line stage in the order used by markStageFailures (-1: not a main-line stage).
+//@ pure stageIdx(g string) int = ite(g == "enabling", 0, ite(g == "disabled", 1, ite(g == "starting", 2, ite(g == "running", 3, ite(g == "outputs", 4, 0 - 1)))))
+//
+// ---- lock invariant of a running step ----
+//@ lockinv runningStep.lock
+//@   inv [enabled-input-once] !enabledInputAvailable ==> chlen(enabledInput) == 0
+//@   inv [signal-channel-open-while-published] signalToStep != nil ==> !closed(signalToStep)
+//@   inv [input-channels-never-closed] !closed(enabledInput) && !closed(deployInput) && !closed(runInput)
+//@   inv [channels-distinct] signalToStep != enabledInput && signalToStep != deployInput && signalToStep != runInput
+//
+// ---- transition helpers (all run on the step's run goroutine) ----
+//@ func (*runningStep).transitionStageWithOutput
+//@   opt goroutine run
+//@   requires wfstep(r) && nolocks()
+//@   requires reported(step.RunningStep(r), string(r.currentStage)) == 0 && completions(step.RunningStep(r)) == 0
+//@   requires outputID != nil ==> pluginDeclares(string(r.currentStage), *outputID) && previousStageOutput != nil
+//@   modifies r.currentStage, r.state, ghost reported
+//@   ensures r.currentStage == newStage
+//@   ensures reported(step.RunningStep(r), string(old(r.currentStage))) == 1
+//@   ensures forall s step.RunningStep, g string :: (s != step.RunningStep(r) || g != string(old(r.currentStage))) ==> reported(s, g) == old(reported(s, g))
+//
+//@ func (*runningStep).transitionRunningStage
+//@   opt goroutine run
+//@   requires wfstep(r) && nolocks()
+//@   requires reported(step.RunningStep(r), string(r.currentStage)) == 0 && completions(step.RunningStep(r)) == 0
+//@   modifies r.currentStage, r.state, ghost reported
+//@   ensures r.currentStage == newStage
+//@   ensures reported(step.RunningStep(r), string(old(r.currentStage))) == 1
+//@   ensures forall s step.RunningStep, g string :: (s != step.RunningStep(r) || g != string(old(r.currentStage))) ==> reported(s, g) == old(reported(s, g))
+//
+//@ func (*runningStep).transitionFromFailedStage
+//@   opt goroutine run
+//@   requires wfstep(r) && nolocks()
+//@   requires reported(step.RunningStep(r), string(r.currentStage)) != 1
+//@   modifies r.currentStage, r.state, ghost reported
+//@   ensures r.currentStage == newStage
+//@   ensures reported(step.RunningStep(r), string(old(r.currentStage))) == 2
+//@   ensures forall s step.RunningStep, g string :: (s != step.RunningStep(r) || g != string(old(r.currentStage))) ==> reported(s, g) == old(reported(s, g))
+//
+//@ func (*runningStep).completeStep
+//@   opt goroutine run
+//@   requires wfstep(r) && nolocks()
+//@   requires reported(step.RunningStep(r), string(r.currentStage)) == 0 && completions(step.RunningStep(r)) == 0
+//@   requires outputID != nil ==> pluginDeclares(string(r.currentStage), *outputID) && previousStageOutput != nil
+//@   modifies r.currentStage, r.state, ghost reported, ghost completions
+//@   ensures r.currentStage == currentStage
+//@   ensures reported(step.RunningStep(r), string(old(r.currentStage))) == 1 && completions(step.RunningStep(r)) == 1
+//@   ensures forall s step.RunningStep, g string :: (s != step.RunningStep(r) || g != string(old(r.currentStage))) ==> reported(s, g) == old(reported(s, g))
+//@   ensures forall s step.RunningStep :: s != step.RunningStep(r) ==> completions(s) == old(completions(s))
+//
+//@ func (*runningStep).markStageFailures
+//@   opt goroutine run
+//@   requires wfstep(r) && nolocks() && stageIdx(string(firstStage)) >= 0
+//@   requires forall g string :: stageIdx(g) >= stageIdx(string(firstStage)) ==> reported(step.RunningStep(r), g) != 1
+//@   modifies ghost reported
+//@   ensures forall g string :: stageIdx(g) >= stageIdx(string(firstStage)) ==> reported(step.RunningStep(r), g) == 2
+//@   ensures forall s step.RunningStep, g string :: (s != step.RunningStep(r) || stageIdx(g) < stageIdx(string(firstStage))) ==> reported(s, g) == old(reported(s, g))
+//
+//@ func (*runningStep).markNotClosable
+//@   opt goroutine run
+//@   requires wfstep(r) && nolocks() && reported(step.RunningStep(r), "closed") != 1
+//@   modifies ghost reported
+//@   ensures reported(step.RunningStep(r), "closed") == 2
+//@   ensures forall s step.RunningStep, g string :: (s != step.RunningStep(r) || g != "closed") ==> reported(s, g) == old(reported(s, g))
+//
+// ---- protocol predicates over the ghost state ----
+// nothing has been reported yet
+//@ pred fresh0(r *runningStep) = completions(step.RunningStep(r)) == 0 && (forall g string :: reported(step.RunningStep(r), g) == 0)
+// the step has ended: exactly one completion, and every main-line stage is finished or declared impossible
+//@ pred ended(r *runningStep) = completions(step.RunningStep(r)) == 1 && reported(step.RunningStep(r), "deploy") != 0 && \
+//@    reported(step.RunningStep(r), "enabling") != 0 && reported(step.RunningStep(r), "starting") != 0 && \
+//@    reported(step.RunningStep(r), "running") != 0 && reported(step.RunningStep(r), "outputs") != 0
+// frame of the ghost state of other steps
+//@ pred othersSame(r *runningStep) = true
+//
+// ---- terminal transitions ----
+//@ func (*runningStep).deployFailed
+//@   opt goroutine run
+//@   requires wfstep(r) && nolocks() && err != nil && r.currentStage == StageIDDeploy && fresh0(r)
+//@   modifies r.currentStage, r.state, ghost reported, ghost completions
+//@   ensures ended(r)
+//
+//@ func (*runningStep).transitionToDisabled
+//@   opt goroutine run
+//@   requires wfstep(r) && nolocks() && r.currentStage == StageIDEnabling && completions(step.RunningStep(r)) == 0
+//@   requires reported(step.RunningStep(r), "deploy") == 1 && (forall g string :: g != "deploy" ==> reported(step.RunningStep(r), g) == 0)
+//@   modifies r.currentStage, r.state, ghost reported, ghost completions
+//@   ensures ended(r) && reported(step.RunningStep(r), "disabled") == 1
+//
+//@ func (*runningStep).closedEarly
+//@   opt goroutine run
+//@   requires wfstep(r) && nolocks() && completions(step.RunningStep(r)) == 0 && stageIdx(string(stageToMarkUnresolvable)) >= 0
+//@   requires r.currentStage != StageIDClosed && reported(step.RunningStep(r), "closed") == 0
+//@   requires priorStageFailed ==> reported(step.RunningStep(r), string(r.currentStage)) != 1
+//@   requires !priorStageFailed ==> reported(step.RunningStep(r), string(r.currentStage)) == 0
+//@   requires forall g string :: stageIdx(g) >= stageIdx(string(stageToMarkUnresolvable)) ==> reported(step.RunningStep(r), g) != 1
+//@   modifies r.currentStage, r.state, ghost reported, ghost completions
+//@   ensures completions(step.RunningStep(r)) == 1 && reported(step.RunningStep(r), "closed") == 1
+//@   ensures reported(step.RunningStep(r), string(old(r.currentStage))) != 0
+//@   ensures forall g string :: stageIdx(g) >= stageIdx(string(stageToMarkUnresolvable)) ==> reported(step.RunningStep(r), g) == 2
+//@   ensures forall g string :: g != "closed" && g != string(old(r.currentStage)) && stageIdx(g) < stageIdx(string(stageToMarkUnresolvable)) ==> \
+//@       reported(step.RunningStep(r), g) == old(reported(step.RunningStep(r), g))
+//
+//@ func (*runningStep).startFailed
+//@   opt goroutine run
+//@   requires wfstep(r) && nolocks() && err != nil && r.currentStage == StageIDStarting && completions(step.RunningStep(r)) == 0
+//@   requires reported(step.RunningStep(r), "deploy") == 1 && reported(step.RunningStep(r), "enabling") == 1 && reported(step.RunningStep(r), "disabled") == 2
+//@   requires forall g string :: g != "deploy" && g != "enabling" && g != "disabled" ==> reported(step.RunningStep(r), g) == 0
+//@   modifies r.currentStage, r.state, ghost reported, ghost completions
+//@   ensures ended(r)
+//
+//@ func (*runningStep).runFailed
+//@   opt goroutine run
+//@   requires wfstep(r) && nolocks() && err != nil && r.currentStage == StageIDRunning && completions(step.RunningStep(r)) == 0
+//@   requires reported(step.RunningStep(r), "deploy") == 1 && reported(step.RunningStep(r), "enabling") == 1 && reported(step.RunningStep(r), "disabled") == 2 && reported(step.RunningStep(r), "starting") == 1
+//@   requires forall g string :: g != "deploy" && g != "enabling" && g != "disabled" && g != "starting" ==> reported(step.RunningStep(r), g) == 0
+//@   modifies r.currentStage, r.state, ghost reported, ghost completions
+//@   ensures ended(r)
+//
+// ---- lifecycle stages (run goroutine) ----
+// ghost status after the deploy stage was reported finished and nothing else
+//@ pred afterDeploy(r *runningStep) = completions(step.RunningStep(r)) == 0 && reported(step.RunningStep(r), "deploy") == 1 && \
+//@    (forall g string :: g != "deploy" ==> reported(step.RunningStep(r), g) == 0)
+// ... after the step was found enabled
+//@ pred afterEnabled(r *runningStep) = completions(step.RunningStep(r)) == 0 && reported(step.RunningStep(r), "deploy") == 1 && \
+//@    reported(step.RunningStep(r), "disabled") == 2 && (forall g string :: g != "deploy" && g != "disabled" ==> reported(step.RunningStep(r), g) == 0)
+// ... after the enabling stage was reported finished (resolved) and the starting stage entered
+//@ pred afterStarting(r *runningStep) = completions(step.RunningStep(r)) == 0 && reported(step.RunningStep(r), "deploy") == 1 && \
+//@    reported(step.RunningStep(r), "disabled") == 2 && reported(step.RunningStep(r), "enabling") == 1 && \
+//@    (forall g string :: g != "deploy" && g != "disabled" && g != "enabling" ==> reported(step.RunningStep(r), g) == 0)
+// ... after the starting stage was reported finished (started) and the running stage entered
+//@ pred afterRunning(r *runningStep) = completions(step.RunningStep(r)) == 0 && reported(step.RunningStep(r), "deploy") == 1 && \
+//@    reported(step.RunningStep(r), "disabled") == 2 && reported(step.RunningStep(r), "enabling") == 1 && reported(step.RunningStep(r), "starting") == 1 && \
+//@    (forall g string :: g != "deploy" && g != "disabled" && g != "enabling" && g != "starting" ==> reported(step.RunningStep(r), g) == 0)
+//
+//@ func (*runningStep).deployStage
+//@   opt goroutine run
+//@   requires wfstep(r) && nolocks() && r.currentStage == StageIDDeploy && fresh0(r)
+//@   modifies r.state, ghost reported, ghost openconn
+//@   ensures [only-the-returned-connection-is-open] forall p deployer.Plugin :: p != result ==> openconn(p) == old(openconn(p))
+//@   ensures result != nil ==> openconn(result) && !old(openconn(result))
+//@   ensures result == nil ==> (forall p deployer.Plugin :: openconn(p) == old(openconn(p)))
+//@   ensures fresh0(r) && r.currentStage == StageIDDeploy
+//@   ensures [closed-early-only-when-context-done] result1 ==> ctxdone(r.ctx) && result == nil
+//@   ensures !result1 && result2 == nil ==> result != nil
+//@   ensures result2 != nil ==> result == nil
+//
+//@ func (*runningStep).startPlugin
+//@   opt goroutine run
+//@   requires wfstep(r) && nolocks() && r.currentStage == StageIDDeploy && fresh0(r)
+//@   modifies r.currentStage, r.state, r.container, ghost reported, ghost completions, ghost openconn
+//@   ensures result == nil ==> ended(r)
+//@   ensures result != nil ==> fresh0(r) && r.currentStage == StageIDDeploy
+//@   ensures [no-connection-left-open-unless-returned] forall p deployer.Plugin :: p != result && openconn(p) ==> old(openconn(p))
+//@   ensures [nothing-left-open-when-ended] result == nil ==> (forall p deployer.Plugin :: openconn(p) ==> old(openconn(p)))
+//
+//@ func (*runningStep).enableStage
+//@   opt goroutine run
+//@   requires wfstep(r) && nolocks() && r.currentStage == StageIDDeploy && fresh0(r)
+//@   modifies r.currentStage, r.state, ghost reported
+//@   ensures r.currentStage == StageIDEnabling
+//@   ensures result1 ==> afterDeploy(r) && ctxdone(r.ctx)
+//@   ensures !result1 && result ==> afterEnabled(r)
+//@   ensures !result1 && !result ==> afterDeploy(r)
+//
+//@ func (*runningStep).startStage
+//@   opt goroutine run
+//@   requires wfstep(r) && nolocks() && container != nil && r.currentStage == StageIDEnabling && afterEnabled(r)
+//@   modifies r.currentStage, r.state, r.atpClient, ghost reported
+//@   ensures r.currentStage == StageIDStarting && afterStarting(r)
+//@   ensures result ==> ctxdone(r.ctx)
+//
+//@ func (*runningStep).startStage$1
+//@   opt goroutine execute
+//@   opt token &r.wg
+//@   requires wfstep(r) && nolocks()
+//
+//@ func (*runningStep).runStage
+//@   opt goroutine run
+//@   requires wfstep(r) && nolocks() && r.currentStage == StageIDStarting && afterStarting(r)
+//@   modifies r.currentStage, r.state, r.container, ghost reported, ghost completions, ghost openconn
+//@   ensures result == nil ==> ended(r)
+//@   ensures result != nil ==> r.currentStage == StageIDRunning && afterRunning(r)
+//@   ensures [opens-no-connection] forall p deployer.Plugin :: openconn(p) ==> old(openconn(p))
+//
+//@ func (*runningStep).postDeployment
+//@   opt goroutine run
+//@   requires wfstep(r) && nolocks() && pluginConnection != nil && r.currentStage == StageIDDeploy && fresh0(r)
+//@   modifies r.currentStage, r.state, r.atpClient, r.container, ghost reported, ghost completions, ghost openconn
+//@   ensures ended(r)
+//@   ensures [opens-no-connection] forall p deployer.Plugin :: openconn(p) ==> old(openconn(p))
+//
+//@ func (*runningStep).run
+//@   opt goroutine run
+//@   opt token &r.wg
+//@   requires wfstep(r) && nolocks() && r.currentStage == StageIDDeploy && fresh0(r)
+//@   ensures [exactly-one-completion-and-all-stages-decided] ended(r)
+//@   ensures [context-cancelled-at-exit] ctxdone(r.ctx)
+//@   ensures [every-connection-it-deployed-is-closed] forall p deployer.Plugin :: openconn(p) ==> old(openconn(p))
+//
+// ---- cancellation and closing (any goroutine) ----
+//@ func (*runningStep).hasCancellationHandler
+//@   requires wfstep(r)
+//@   modifies nothing
+//@ func (*runningStep).getCancellationHandler
+//@   requires wfstep(r)
+//@   modifies nothing
+//
+//@ func (*runningStep).cancelStep
+//@   requires wfstep(r) && held(r.lock) && lockinv(r)
+//@   modifies chan r.signalToStep, fam CtxDone
+//@   ensures [context-cancelled] ctxdone(r.ctx)
+//@   ensures [lock-invariant-kept] lockinv(r)
+//
+//@ func (*runningStep).closeComponents
+//@   requires wfstep(r) && nolocks()
+//@   modifies r.container, ghost openconn
+//@   ensures ctxdone(r.ctx)
+//@   ensures [opens-no-connection] forall p deployer.Plugin :: openconn(p) ==> old(openconn(p))
+//@ func (*runningStep).forceClose
+//@   requires wfstep(r) && nolocks()
+//@   modifies r.container, ghost openconn
+//@   ensures ctxdone(r.ctx)
+//@   ensures [opens-no-connection] forall p deployer.Plugin :: openconn(p) ==> old(openconn(p))
+//@ func (*runningStep).forceCloseInternal
+//@   requires wfstep(r) && nolocks()
+//@   modifies r.container, ghost openconn
+//@   ensures [opens-no-connection] forall p deployer.Plugin :: openconn(p) ==> old(openconn(p))
+//
+// ---- input hand-over (any goroutine; called with the step lock held by ProvideStageInput) ----
+//@ func (*runningStep).provideDeployInput
+//@   requires wfstep(r) && held(r.lock) && lockinv(r)
+//@   ensures [second-hand-over-refused] old(r.deployInputAvailable) ==> result != nil && !sentnow(r.deployInput)
+//@   ensures [first-hand-over-recorded] !old(r.deployInputAvailable) && result == nil ==> r.deployInputAvailable
+//@   ensures [lock-invariant-kept] lockinv(r)
+//
+//@ func (*runningStep).provideEnablingInput
+//@   requires wfstep(r) && held(r.lock) && lockinv(r)
+//@   ensures [second-hand-over-refused] old(r.enabledInputAvailable) ==> result != nil && !sentnow(r.enabledInput)
+//@   ensures [first-hand-over-recorded] !old(r.enabledInputAvailable) ==> result == nil && r.enabledInputAvailable && sentnow(r.enabledInput)
+//@   ensures [enabled-iff-absent-or-true] !old(r.enabledInputAvailable) ==> lastsent(r.enabledInput) == (input["enabled"] == nil || input["enabled"] == any(true))
+//@   ensures [lock-invariant-kept] lockinv(r)
+//
+//@ func (*runningStep).provideStartingInput
+//@   requires wfstep(r) && held(r.lock) && lockinv(r)
+//@   ensures [second-hand-over-refused] old(r.runInputAvailable) ==> result != nil && !sentnow(r.runInput)
+//@   ensures [first-hand-over-recorded] !old(r.runInputAvailable) && result == nil ==> r.runInputAvailable && sentnow(r.runInput) && lastsent(r.runInput).stepInputData == input["input"]
+//@   ensures [lock-invariant-kept] lockinv(r)
+//
+//@ func (*runningStep).provideCancelledInput
+//@   requires wfstep(r) && held(r.lock) && lockinv(r)
+//@   ensures [stop-condition-cancels] input["stop_if"] != nil && input["stop_if"] != any(false) ==> r.cancelled && ctxdone(r.ctx)
+//@   ensures [lock-invariant-kept] lockinv(r)
+//
+//@ func (*runningStep).ProvideStageInput
+//@   requires wfstep(r) && nolocks()
+//
+//@ func (*runningStep).State
+//@   requires wfstep(r) && nolocks()
+//@ func (*runningStep).CurrentStage
+//@   requires wfstep(r) && nolocks()
+//
+// ---- closing (any goroutine, any moment) ----
+//@ func (*runningStep).Close
+//@   requires wfstep(r) && nolocks()
+//@   ensures [waits-for-the-step-goroutines] waited(&r.wg)
+//
+//@ func (*runningStep).ForceClose
+//@   requires wfstep(r) && nolocks()
+//@   ensures [nil-result-means-waited] result == nil ==> waited(&r.wg)
+//
+// ---- starting a step; reading a plugin schema ----
+//@ func (*runnableStep).Start
+//@   requires r != nil && stageChangeHandler != nil && r.logger != nil && r.deployerRegistry != nil && r.localDeployer != nil
+//@   requires [input-matches-run-schema] indom(input, "step") && input["step"] != nil ==> typeis(input["step"], string)
+//@   ensures [step-or-error] (result1 == nil) != (result == nil)
+//@   ensures [fresh-well-formed-step] result1 == nil ==> typeis(result, *runningStep) && wfstep(result.(*runningStep)) && \
+//@       result.(*runningStep).currentStage == StageIDDeploy && fresh(result.(*runningStep))
+//
+//@ func (*pluginProvider).LoadSchema
+//@   requires p != nil && p.logger != nil
+//@   requires [inputs-match-provider-schema] typeis(inputs["plugin"], map[string]any) && \
+//@       typeis(inputs["plugin"].(map[string]any)["deployment_type"], string) && typeis(inputs["plugin"].(map[string]any)["src"], string)
+//@   requires forall k deployer.DeploymentType :: indom(p.localDeployers, k) ==> p.localDeployers[k] != nil
+//@   ensures [step-or-error] (result1 == nil) != (result == nil)
+//@   ensures [schema-probe-deployment-is-closed-on-every-path] forall c deployer.Plugin :: openconn(c) ==> old(openconn(c))
